@@ -556,6 +556,7 @@ impl Deco<'_, '_, '_> {
         let n_items = items.len();
         // marker/creation pair over a random sub-range
         let mut pair: Option<(usize, usize, u32, Option<String>)> = None;
+        let mut lone_marker = false;
         if p.nodeops && !left_rec_branch && n_items >= 1 && self.b.d.chance(1, 5) {
             let a = self.b.d.below(n_items);
             let z = a + 1 + self.b.d.below(n_items - a);
@@ -563,6 +564,8 @@ impl Deco<'_, '_, '_> {
             self.next_marker += 1;
             let name = if self.b.d.chance(3, 4) { Some(self.node_name()) } else { None };
             pair = Some((a, z, k, name));
+            // now and then the creation is left out: an unused marker (warning only)
+            lone_marker = self.b.d.chance(1, 8);
         }
         for (i, it) in items.into_iter().enumerate() {
             if let Some((a, _, k, _)) = &pair {
@@ -579,7 +582,7 @@ impl Deco<'_, '_, '_> {
                 }
             }
             let skip_first_of_left_rec = left_rec_branch && i == 0;
-            let inside_pair = pair.as_ref().is_some_and(|(a, z, _, _)| *a <= i && i < *z);
+            let inside_pair = !lone_marker && pair.as_ref().is_some_and(|(a, z, _, _)| *a <= i && i < *z);
             if inside_pair {
                 self.open_markers += 1;
             }
@@ -589,7 +592,7 @@ impl Deco<'_, '_, '_> {
             }
             out.push(it);
             if let Some((_, z, k, name)) = &pair {
-                if *z == i + 1 {
+                if *z == i + 1 && !lone_marker {
                     out.push(Regex::Create(Some(*k), name.clone()));
                 }
             }
